@@ -253,66 +253,93 @@ Definition aread (c : cfg) (a : astate) (cid : nat) (op rsp h off n : N) (judge_
   | _ => XAny
   end.
 
+(* Prepare Write Request  16 <handle> <offset> <data>  with a write queue of [qs] bytes; [pdu] is the whole request *)
+Definition aprepare (c : cfg) (a : astate) (cid : nat) (qs h off : N) (data pdu : list N) (n : N) : astate * expect :=
+  let k := aconn_of a cid in
+  match attr_of c h with
+  | None => (a, XAny)
+  | Some at_ =>
+      let g := value_index at_ in
+      let mark m := match g with Some gi => set_mark a gi m | None => a end in
+      match aperm c (ac_enc k) (ac_pair k) at_ with
+      | AErr e => (mark (if (e =? 5) || (e =? 15) then m_security else m_rejected),
+                   XResp k_prep_denied (AErr e) g (err_rsp 22 h e))
+      | AOk =>
+          let other := match as_owner a with Some o => negb (Nat.eqb o cid) | None => false end in
+          if other then (mark m_prepared, XResp k_prep_other (AErr 9) g (err_rsp 22 h 9))
+          else if qs - queue_used (as_queue a) <? elem_cost data
+          then (mark m_prepared, XResp k_prep_full (AErr 9) g (err_rsp 22 h 9))
+          else
+            let a1 := mark m_prepared in
+            (set_queue a1 (Some cid) (as_queue a1 ++ [(h, off, data)]),
+             XResp k_prep_ok AOk g (23 :: sub (tl pdu) 0 (N.min (out_limit c a cid n) (len pdu) - 1)))
+      end
+  end.
+
+(* Execute Write Request  18 <flag> *)
+Definition aexec (c : cfg) (a : astate) (cid : nat) (flag : N) : astate * expect :=
+  if negb (flag =? 0) && negb (flag =? 1) then (a, XAny)
+  else
+    let mine := match as_owner a with Some o => Nat.eqb o cid | None => false end in
+    if (flag =? 1) && mine then
+      let '(a1, failure) := aexecute c a cid (as_queue a) in
+      (arelease c a1 cid false,
+       XResp k_exec (match failure with Some (_, e) => AErr e | None => AOk end) None
+             (match failure with Some (h, e) => err_rsp 24 h e | None => [25] end))
+    else (arelease c a cid true, XResp (if flag =? 1 then k_exec else k_exec_cancel) AOk None [25]).
+
 Definition astep_in (c : cfg) (a : astate) (cid : nat) (pdu : list N) (n : N) : astate * expect :=
   let k := aconn_of a cid in
   match pdu with
-  | [2; lo; hi] =>                                                          (* Exchange MTU Request *)
-      (if default_att_mtu <=? lo + 256 * hi then set_aconn a cid (mkAC (lo + 256 * hi) (ac_enc k) (ac_pair k)) else a, XAny)
-  | [10; lo; hi] => (a, aread c a cid 10 11 (lo + 256 * hi) 0 n true)         (* Read Request *)
-  | [12; lo; hi; olo; ohi] => (a, aread c a cid 12 13 (lo + 256 * hi) (olo + 256 * ohi) n false)   (* Read Blob Request *)
-  | 18 :: lo :: hi :: data =>                                               (* Write Request *)
-      let h := lo + 256 * hi in
-      match attr_of c h with
-      | None => (a, XAny)
-      | Some at_ =>
-          let '(r, a') := awrite c a cid at_ 0 data m_written in
-          (a', XResp k_write r (value_index at_) (match r with AOk => [19] | AErr e => err_rsp 18 h e end))
-      end
-  | 82 :: lo :: hi :: data =>                                               (* Write Command *)
-      match attr_of c (lo + 256 * hi) with
-      | None => (a, XAny)
-      | Some at_ => (snd (awrite c a cid at_ 0 data m_written), XAny)
-      end
-  | 22 :: lo :: hi :: olo :: ohi :: data =>                                 (* Prepare Write Request *)
-      match wqueue c with
-      | None => (a, XAny)
-      | Some qs =>
-          let h := lo + 256 * hi in
-          match attr_of c h with
-          | None => (a, XAny)
-          | Some at_ =>
-              let g := value_index at_ in
-              let mark m := match g with Some gi => set_mark a gi m | None => a end in
-              match aperm c (ac_enc k) (ac_pair k) at_ with
-              | AErr e => (mark (if (e =? 5) || (e =? 15) then m_security else m_rejected),
-                           XResp k_prep_denied (AErr e) g (err_rsp 22 h e))
-              | AOk =>
-                  let other := match as_owner a with Some o => negb (Nat.eqb o cid) | None => false end in
-                  if other then (mark m_prepared, XResp k_prep_other (AErr 9) g (err_rsp 22 h 9))
-                  else if qs - queue_used (as_queue a) <? elem_cost data
-                  then (mark m_prepared, XResp k_prep_full (AErr 9) g (err_rsp 22 h 9))
-                  else
-                    let a1 := mark m_prepared in
-                    (set_queue a1 (Some cid) (as_queue a1 ++ [(h, olo + 256 * ohi, data)]),
-                     XResp k_prep_ok AOk g (23 :: sub (tl pdu) 0 (N.min (out_limit c a cid n) (len pdu) - 1)))
-              end
-          end
-      end
-  | [24; flag] =>                                                           (* Execute Write Request *)
-      match wqueue c with
-      | None => (a, XAny)
-      | Some _ =>
-          if negb (flag =? 0) && negb (flag =? 1) then (a, XAny)
-          else
-            let mine := match as_owner a with Some o => Nat.eqb o cid | None => false end in
-            if (flag =? 1) && mine then
-              let '(a1, failure) := aexecute c a cid (as_queue a) in
-              (arelease c a1 cid false,
-               XResp k_exec (match failure with Some (_, e) => AErr e | None => AOk end) None
-                     (match failure with Some (h, e) => err_rsp 24 h e | None => [25] end))
-            else (arelease c a cid true, XResp (if flag =? 1 then k_exec else k_exec_cancel) AOk None [25])
-      end
-  | _ => (a, XAny)
+  | [] => (a, XAny)
+  | op :: t =>
+      if op =? 2 then                                                          (* Exchange MTU Request *)
+        match t with
+        | [lo; hi] => (if default_att_mtu <=? lo + 256 * hi then set_aconn a cid (mkAC (lo + 256 * hi) (ac_enc k) (ac_pair k)) else a, XAny)
+        | _ => (a, XAny)
+        end
+      else if op =? 10 then                                                    (* Read Request *)
+        match t with
+        | [lo; hi] => (a, aread c a cid 10 11 (lo + 256 * hi) 0 n true)
+        | _ => (a, XAny)
+        end
+      else if op =? 12 then                                                    (* Read Blob Request *)
+        match t with
+        | [lo; hi; olo; ohi] => (a, aread c a cid 12 13 (lo + 256 * hi) (olo + 256 * ohi) n false)
+        | _ => (a, XAny)
+        end
+      else if op =? 18 then                                                    (* Write Request *)
+        match t with
+        | lo :: hi :: data =>
+            let h := lo + 256 * hi in
+            match attr_of c h with
+            | None => (a, XAny)
+            | Some at_ =>
+                let '(r, a') := awrite c a cid at_ 0 data m_written in
+                (a', XResp k_write r (value_index at_) (match r with AOk => [19] | AErr e => err_rsp 18 h e end))
+            end
+        | _ => (a, XAny)
+        end
+      else if op =? 82 then                                                    (* Write Command *)
+        match t with
+        | lo :: hi :: data =>
+            match attr_of c (lo + 256 * hi) with
+            | None => (a, XAny)
+            | Some at_ => (snd (awrite c a cid at_ 0 data m_written), XAny)
+            end
+        | _ => (a, XAny)
+        end
+      else if op =? 22 then                                                    (* Prepare Write Request *)
+        match t, wqueue c with
+        | lo :: hi :: olo :: ohi :: data, Some qs => aprepare c a cid qs (lo + 256 * hi) (olo + 256 * ohi) data pdu n
+        | _, _ => (a, XAny)
+        end
+      else if op =? 24 then                                                    (* Execute Write Request *)
+        match t, wqueue c with
+        | [flag], Some _ => aexec c a cid flag
+        | _, _ => (a, XAny)
+        end
+      else (a, XAny)
   end.
 
 Definition astep (c : cfg) (a : astate) (o : srv_op) : astate * expect :=
